@@ -192,7 +192,7 @@ pub fn decode(e: &RawEv, idx: usize, seq: u64, round: usize) -> REv {
 // ------------------------------------------------------------------------------------------
 // parser stream
 
-struct LabParser {
+pub struct LabParser {
     items: VecDeque<(usize, Item, usize)>,
     end_gates: usize,
     cur: Option<Gate>,
@@ -427,10 +427,12 @@ pub const IDLE_LIMIT: u64 = 10_000;
 pub const NO_PROGRESS_POLLS: usize = 50_000;
 pub const QUIESCE_POLLS: usize = 16;
 
-pub fn run_case(case: &RCase, sched: &mut Schedule<'_>) -> RunLog {
-    // reset lab
+/// Resets the lab for `case` and returns its parser stream plus the counter of delivered items.
+pub fn prepare(case: &RCase) -> (LabParser, Arc<AtomicU64>) {
     with_lab(|l| {
+        let log_hook = l.log_hook;
         *l = Lab::default();
+        l.log_hook = log_hook;
         l.plan = case.plan.clone();
         l.wn_plan = case.wn_plan.clone();
         if case.custom_classifier {
@@ -442,8 +444,6 @@ pub fn run_case(case: &RCase, sched: &mut Schedule<'_>) -> RunLog {
     verif_hooks::set_idle_limit(IDLE_LIMIT);
     let _ = verif_hooks::reset_idle_turns();
     install_probe_hook();
-    let probe0 = PROBE.load(Ordering::SeqCst);
-
     let delivered = Arc::new(AtomicU64::new(0));
     let parser = LabParser {
         items: case.items.iter().enumerate().map(|(i, it)| (if case.lazy { it.gates } else { 0 }, it.item.clone(), i)).collect(),
@@ -451,7 +451,18 @@ pub fn run_case(case: &RCase, sched: &mut Schedule<'_>) -> RunLog {
         cur: None,
         delivered: Arc::clone(&delivered),
     };
+    (parser, delivered)
+}
+
+pub fn run_case(case: &RCase, sched: &mut Schedule<'_>) -> RunLog {
+    let (parser, delivered) = prepare(case);
     let mut stream = build_runner(case).run(parser, build_cli(case));
+    run_with(case, sched, &mut |cx| stream.as_mut().poll_next(cx), &delivered, QUIESCE_POLLS)
+}
+
+/// The driver loop over any source of events (`poll` = the stream's `poll_next`).
+pub fn run_with(case: &RCase, sched: &mut Schedule<'_>, poll: &mut dyn FnMut(&mut Context<'_>) -> Poll<Option<RawEv>>, delivered: &Arc<AtomicU64>, quiesce_polls: usize) -> RunLog {
+    let probe0 = PROBE.load(Ordering::SeqCst);
 
     let flag = Arc::new(Flag(AtomicBool::new(false), thread::current()));
     let waker = Waker::from(Arc::clone(&flag));
@@ -480,7 +491,7 @@ pub fn run_case(case: &RCase, sched: &mut Schedule<'_>) -> RunLog {
         loop {
             flag.0.store(false, Ordering::SeqCst);
             polls += 1;
-            let res = panic::catch_unwind(AssertUnwindSafe(|| stream.as_mut().poll_next(&mut cx)));
+            let res = panic::catch_unwind(AssertUnwindSafe(|| poll(&mut cx)));
             max_idle = max_idle.max(verif_hooks::reset_idle_turns());
             let act = with_lab(|l| l.activity);
             match res {
@@ -540,7 +551,7 @@ pub fn run_case(case: &RCase, sched: &mut Schedule<'_>) -> RunLog {
                     // it returned `Pending` without asking to be polled again, or when it keeps
                     // asking but QUIESCE_POLLS consecutive polls brought no event, no callback
                     // activity and no gate activity (busy-waiting for the parser).
-                    if flag.0.load(Ordering::SeqCst) && idle_polls < QUIESCE_POLLS {
+                    if flag.0.load(Ordering::SeqCst) && idle_polls < quiesce_polls {
                         continue;
                     }
                     busy = flag.0.load(Ordering::SeqCst);
@@ -626,7 +637,7 @@ pub fn run_case(case: &RCase, sched: &mut Schedule<'_>) -> RunLog {
     if end == RunEnd::Completed {
         // the stream must stay finished
         for _ in 0..2 {
-            match panic::catch_unwind(AssertUnwindSafe(|| stream.as_mut().poll_next(&mut cx))) {
+            match panic::catch_unwind(AssertUnwindSafe(|| poll(&mut cx))) {
                 Ok(Poll::Ready(None)) => {}
                 // A boxed stream is not required to be fused; polling after `None` is only done
                 // when it does not panic. Anything but `None` is recorded.
@@ -637,7 +648,6 @@ pub fn run_case(case: &RCase, sched: &mut Schedule<'_>) -> RunLog {
         let _ = panic::catch_unwind(|| panic::panic_any(ProbeMarker));
         hook_restored = Some(PROBE.load(Ordering::SeqCst) == before + 1);
     }
-    drop(stream);
     install_probe_hook();
     let calls = with_lab(|l| std::mem::take(&mut l.calls));
     RunLog {
